@@ -122,6 +122,15 @@ theorem requested_unchanged {n : Nat} {s s' : QState} {out : List Cell} (hw : WF
 
 /-! ## Part 2 — every policy, from a loaded queue -/
 
+/-- **`Loaded` is what the constructor and ≥ 1 `append`s build**, for every policy, option,
+group size ≥ 1 (BlockedFIFO: `auto`, its group size counts the appends) and oracle streams, any
+number of stimuli with ≥ 1 sample, ≥ 1 trial and a non-empty cycle of delays ≥ 0. -/
+theorem loaded_by_append (kind : Kind) (keep : Bool) (gsize : Nat) (auto : Bool) (draws : List Nat)
+    (perms : List (List Nat)) (es : List Entry) (hne : es ≠ []) (hes : ∀ e ∈ es, GoodEntry e)
+    (hg : kind = .grouped → auto = false → 1 ≤ gsize) :
+    Loaded (loadAll (newQueue kind keep gsize auto draws perms) es) :=
+  Loaded_loadAll kind keep gsize auto draws perms es hne hes hg
+
 section Loaded
 variable {ns : List Nat} {s s' : QState} {out : List Cell}
 
@@ -464,7 +473,7 @@ def demoQ (kind : Kind) (keep : Bool) (gsize : Nat) (auto : Bool) : QState :=
 /-- every policy / option, group sizes 1, 2 (does not divide 3), 4 (> n), BlockedFIFO (`auto`) -/
 example (kind : Kind) (keep : Bool) (gsize : Nat) (auto : Bool) (hg : 1 ≤ gsize) :
     Loaded (demoQ kind keep gsize auto) :=
-  Loaded_loadAll kind keep gsize auto _ _ _ (by simp) demo_good (fun _ _ => hg)
+  loaded_by_append kind keep gsize auto _ _ _ (by simp) demo_good (fun _ _ => hg)
 
 example (kind : Kind) (keep : Bool) (gsize : Nat) (auto : Bool) :
     OracleOK [7, 13, 20].sum (demoQ kind keep gsize auto) := by
